@@ -35,6 +35,7 @@ type Verifier struct {
 	repo         string
 	verifDir     string
 	infos        map[string]*types.Info // by package path (repository packages)
+	inlinableCache sync.Map
 }
 
 var repoPkgs = []string{".", "./kv", "./kv/crdt", "./kv/internal/crdt", "./sqlite", "./internal", "./writetime", "./sql/parse"}
@@ -368,8 +369,22 @@ func (v *Verifier) verifyFunc(key string, timeout int, tier string) *FuncReport 
 				return
 			}
 		}
+		x.atWild = map[string][]Clause{}
 		for site := range con.At {
 			found := false
+			if strings.HasSuffix(site, "*") {
+				// "call:delete*": the assertion holds at EVERY site of that name
+				// (call:delete, call:delete#2, ...), however many there are
+				base := strings.TrimSuffix(site, "*")
+				for _, sn := range x.sites {
+					if sn == base || strings.HasPrefix(sn, base+"#") {
+						if _, done := x.atWild[sn]; !done {
+							x.atWild[sn] = con.At[site]
+						}
+						found = true
+					}
+				}
+			}
 			for _, sn := range x.sites {
 				if sn == site {
 					found = true
